@@ -44,16 +44,17 @@ Proof.
 Qed.
 
 (* C11 round trip over every zone table *)
-Theorem clock_roundtrip z now hm : (hm < 1440)%N ->
+Theorem clock_roundtrip_at z now hm : (hm < 1440)%N ->
   let h := (hm / 60)%N in let m := (hm mod 60)%N in
   let L := 86400 * today z now + Z.of_N (3600 * h + 60 * m) in
   (exists t, local_secs z t = L) ->                       (* the wall-clock time exists today *)
   0 <= mktime_model z L < 4294967296 ->
-  exists t, time_to_hexadecimal_timestamp_z false z now (hhmm hm) = Ok (hexlify (le32 (Z.to_N t))) /\
-            local_secs z t = L /\
-            hexadecimale_timestamp_to_localtime z (hexlify (le32 (Z.to_N t))) = Ok (hhmm hm).
+  let t := mktime_model z L in
+  time_to_hexadecimal_timestamp_z false z now (hhmm hm) = Ok (hexlify (le32 (Z.to_N t))) /\
+  local_secs z t = L /\
+  hexadecimale_timestamp_to_localtime z (hexlify (le32 (Z.to_N t))) = Ok (hhmm hm).
 Proof.
-  intros Hhm h m L Hex Hrange. exists (mktime_model z L).
+  intros Hhm h m L Hex Hrange t. unfold t.
   assert (Hloc : local_secs z (mktime_model z L) = L) by (apply mktime_finds, Hex).
   split; [|split; [exact Hloc|]].
   - unfold time_to_hexadecimal_timestamp_z.
@@ -82,4 +83,14 @@ Proof.
     + unfold h. apply N.div_lt_upper_bound; lia.
     + unfold m. apply N.mod_lt. discriminate.
 Qed.
+
+Theorem clock_roundtrip z now hm : (hm < 1440)%N ->
+  let h := (hm / 60)%N in let m := (hm mod 60)%N in
+  let L := 86400 * today z now + Z.of_N (3600 * h + 60 * m) in
+  (exists t, local_secs z t = L) ->                       (* the wall-clock time exists today *)
+  0 <= mktime_model z L < 4294967296 ->
+  exists t, time_to_hexadecimal_timestamp_z false z now (hhmm hm) = Ok (hexlify (le32 (Z.to_N t))) /\
+            local_secs z t = L /\
+            hexadecimale_timestamp_to_localtime z (hexlify (le32 (Z.to_N t))) = Ok (hhmm hm).
+Proof. intros Hhm h m L Hex Hrange. exists (mktime_model z L). exact (clock_roundtrip_at z now hm Hhm Hex Hrange). Qed.
 Print Assumptions clock_roundtrip.
